@@ -667,10 +667,10 @@ def c11(run, drv, rng, ncases):
                     run.violation("the reported direction is not the direction of the dissipation-weighted wavenumber vector computed from the spectral dissipation",
                                   dict(what, want=wantdir))
                 # does the balance have a root between 2 and 40 m/s?
-                us = np.linspace(2.0, 40.0, 20)
+                us = np.concatenate([np.arange(2.0, 8.01, 0.5), np.linspace(9.0, 40.0, 12)])     # finer where weak seas have their root
                 bs = np.array([balance_at(i, float(u)) for u in us])
                 bf = bs[np.isfinite(bs)]       # the cold-started roughness iteration fails at some single winds
-                has_root = len(bf) >= 12 and bf[0] < 0 < bf[-1]
+                has_root = len(bf) >= 15 and bf[0] < 0 < bf[-1]
                 run.count("scan_points_not_finite", int(np.sum(~np.isfinite(bs))))
                 run.count("balance_has_root_in_2_40" if has_root else "balance_without_root_in_2_40")
                 weak = abs(Db[i]) < 1e-6        # onset of breaking: typical breaking seas have 1e-5 .. 1e-3 m^2/s
